@@ -87,10 +87,25 @@ func check(task int, site uint32, step int64) {
 
 // canary: a harness-owned byte written by one task and read by another. It
 // proves that the race oracle is live in the very binary that runs the batch.
-var canaryByte byte
+var canaryArr [64]byte
 
-func canaryWrite() string { canaryByte++; return "w" }
-func canaryRead() string  { return fmt.Sprint(canaryByte) }
+func canaryWrite() string {
+	for i := range canaryArr {
+		canaryArr[i]++
+	}
+	return "w"
+}
+
+func canaryRead() string {
+	n := 0
+	for i := range canaryArr {
+		n += int(canaryArr[i])
+	}
+	if n < 0 {
+		return "r-"
+	}
+	return "r"
+}
 
 type taskPlan struct {
 	ops []*op
